@@ -144,6 +144,13 @@ func (g *coreGen) strExpr(depth int) *ref.Expr {
 		return g.hdr()
 	case k <= 7:
 		a := g.strAtom(depth - 1)
+		if g.chance(20, "typed-left-operand") {
+			// a concatenation may start with (or consist only of) typed variables: `var.i var.f`
+			a = g.catOperand()
+			if a.K == "str" {
+				a = g.varOf(pool.Ints, ref.TInt)
+			}
+		}
 		b := g.catOperand()
 		return &ref.Expr{K: "cat", T: ref.TStr, A: a, Bx: b, Expl: g.chance(50, "explicit")}
 	default:
